@@ -47,6 +47,10 @@ type ccThread struct {
 	isParked      int32
 	startedClosed bool
 	outBefore     int
+	// state of the connection when a call req parked at inbound.afterNewExchange (exchange
+	// registered, re-check pending) was released; 0 = never parked there
+	stateAtRecheck int
+	ponged         bool
 }
 
 type ccOutCall struct {
@@ -412,6 +416,11 @@ func (w *ccWorld) finishReader(t *ccThread) bool {
 		}
 		switch {
 		case nerr == 1 && code == want:
+		case nerr == 0 && closed && t.outcome[0] == 12 && t.stateAtRecheck != 0 && t.stateAtRecheck != 4 && !w.failure:
+			// the operations run one at a time: between the release of this request (exchange
+			// registered, connection still open) and its end nothing else moved, so it was this
+			// request's own exchange removal that closed the connection -- before it was answered
+			w.fail(fmt.Sprintf("call req %d raced with Close: when it reached its re-check the connection was still open (state %d), yet no declined frame was sent for it and the connection is now Closed -- its own exchange was removed (closing the connection) before the answer", t.id, t.stateAtRecheck))
 		case nerr == 0 && closed:
 		case nerr == 0:
 			tag := ""
@@ -511,9 +520,14 @@ func (w *ccWorld) finishCaller(t *ccThread) bool {
 // dispatchInbound (the response cancels the call context -> inboundExpired -> expireExchange).
 // Their order cannot be controlled from outside, so the operation is run as a whole: the model
 // replays both threads (silently) and the observation is taken when both have finished.
-func (w *ccWorld) opFinIn(id uint32, mask int64) bool {
+func (w *ccWorld) opFinIn(id uint32, mask int64) bool { return w.opFinInCode(id, 0) }
+
+// opFinInCode: code != 0 -- the handler answers with a system error (model thread TFinInErr).
+func (w *ccWorld) opFinInCode(id uint32, code int) bool {
 	h := w.inflightIn[id]
 	delete(w.inflightIn, id)
+	h.code = code
+	errBase := w.errCount(id)
 	from := w.ctl.logLen()
 	wantCE := 2
 	if w.expiredIn[id] { // the watcher already ran when the exchanges were stopped
@@ -544,7 +558,13 @@ func (w *ccWorld) opFinIn(id uint32, mask int64) bool {
 		time.Sleep(100 * time.Microsecond)
 	}
 	time.Sleep(500 * time.Microsecond) // the rest of checkExchanges after its schedule point
-	t := w.spawn(5, id, 0, true)
+	var t *ccThread
+	if code != 0 {
+		t = w.spawn(10, id, int64(code), true)
+	} else {
+		t = w.spawn(5, id, 0, true)
+	}
+	t.errBase = errBase
 	t.finished = true
 	t.handler = h
 	w.modelOp(3, int64(t.tid), 0, 0)
@@ -562,6 +582,41 @@ func (w *ccWorld) opFinIn(id uint32, mask int64) bool {
 
 func (w *ccWorld) finishFinIn(t *ccThread) {
 	t.outcome = [2]int64{40, int64(t.id)}
+	if code := t.handler.code; code != 0 {
+		// (a) for error results: the handler's system error must reach the peer, exactly once
+		t.outcome = [2]int64{100 + int64(code), int64(t.id)}
+		check := !w.failure && !w.expiredIn[t.id] && !tchannel.VerifC07Observe(w.conn).Stopped
+		deadline := time.Now().Add(2 * time.Millisecond)
+		if check {
+			deadline = time.Now().Add(2 * time.Second)
+		}
+		for w.errCount(t.id) == t.errBase && time.Now().Before(deadline) {
+			select {
+			case <-w.peer.eof:
+				deadline = time.Now()
+			default:
+				time.Sleep(200 * time.Microsecond)
+			}
+		}
+		n, last := 0, int64(-1)
+		for _, e := range w.peer.errFrames() {
+			if uint32(e[0]) == t.id {
+				n++
+				last = e[1]
+			}
+		}
+		// a call req with the same id that is parked inside handleCallReq (duplicate / reused id)
+		// must not take this frame for its own answer
+		for _, t2 := range w.threads {
+			if t2 != t && t2.kind == 3 && t2.id == t.id && !t2.finished {
+				t2.errBase += n - t.errBase
+			}
+		}
+		if check && (n-t.errBase != 1 || last != int64(code)) {
+			w.fail(fmt.Sprintf("[c07:handler-error-lost-on-drain] inbound call %d was accepted before Close and its handler answered with system error %d, but the peer got %d error frame(s) for it (last code %d; SendSystemError returned %v)", t.id, code, n-t.errBase, last, t.handler.werr))
+		}
+		return
+	}
 	if !w.failure && !w.expiredIn[t.id] && !tchannel.VerifC07Observe(w.conn).Stopped {
 		// (a) results are delivered: the peer must receive the complete call res
 		deadline := time.Now().Add(2 * time.Second)
@@ -594,6 +649,51 @@ func (w *ccWorld) opFinOut(id uint32, mask int64) bool {
 	if t.park != nil {
 		// checked when it is resumed
 		t.handler = nil
+	}
+	return true
+}
+
+// opPing: the peer sends a ping req (model thread TPing).  Only while the frame reader is free
+// and the connection is open (a closed connection's socket is gone: nothing can be observed).
+func (w *ccWorld) opPing() bool {
+	w.pingSeq++
+	id := 0x7e000000 + w.pingSeq
+	st := w.state()
+	t := w.spawn(11, id, 0, false)
+	ok := w.run(t, 0, func() {
+		ch := w.peer.ping(id)
+		go func() {
+			select {
+			case <-ch:
+				t.ponged = true
+			case <-w.peer.eof:
+			case <-time.After(2500 * time.Millisecond):
+			}
+			close(t.done)
+		}()
+	})
+	if !ok {
+		return false
+	}
+	if t.ponged {
+		t.outcome = [2]int64{80, int64(id)}
+	} else {
+		t.outcome = [2]int64{13, int64(id)}
+		w.failure = true
+		w.fail(fmt.Sprintf("[c07:ping-on-draining-connection] a ping req on a connection in state %d (%d inbound / %d outbound calls in flight) was not answered with a ping res", st, len(w.inflightIn), len(w.outCalls)))
+		return w.flush()
+	}
+	return true
+}
+
+func (w *ccWorld) readerFree() bool {
+	if w.readerBusy != nil {
+		return false
+	}
+	for _, t := range w.parked() {
+		if t.kind == 3 || t.kind == 6 {
+			return false
+		}
 	}
 	return true
 }
@@ -636,6 +736,9 @@ func (w *ccWorld) opRelayDone(t *ccThread, mask int64) bool {
 
 // resume continues a parked operation.
 func (w *ccWorld) resume(t *ccThread, mask int64) bool {
+	if t.kind == 3 && t.park != nil && t.park.Name == ptInNewEx && !w.failure {
+		t.stateAtRecheck = w.state()
+	}
 	if !w.run(t, mask, nil) {
 		return false
 	}
@@ -829,8 +932,16 @@ func (w *ccWorld) step(rng *rand.Rand, nclosers, ncallers, nfail *int, pPark flo
 				ids = append(ids, int(k))
 			}
 			sort.Ints(ids)
-			return w.opFinIn(uint32(ids[rng.Intn(len(ids))]), randMask(rng, pPark, 1))
+			id := uint32(ids[rng.Intn(len(ids))])
+			randMask(rng, pPark, 1)
+			if rng.Intn(4) == 0 && !w.failure && !w.expiredIn[id] {
+				return w.opFinInCode(id, []int{3, 5, 6, 8}[rng.Intn(4)])
+			}
+			return w.opFinIn(id, 0)
 		}})
+	}
+	if st != 4 && !w.failure && w.readerFree() {
+		cs = append(cs, cand{"ping", 2, func() bool { return w.opPing() }})
 	}
 	if len(w.outCalls) > 0 && st != 4 && w.readerBusy == nil { // responses go through the (single) frame reader
 		cs = append(cs, cand{"response", 5, func() bool {
@@ -1021,6 +1132,15 @@ func engineConnClose(rng *rand.Rand, n int, tier string, o *Out) {
 			ok = w.opReader(w.nextInID, 0) && w.opReader(w.nextInID+1, 1<<uint(2+rng.Intn(2))) && w.opCloser(0)
 			w.nextInID += 2
 			nclosers++
+		case 2:
+			// the raced request is the ONLY exchange in flight: its own removal closes the connection
+			labels = append(labels, "D:callreq@registered|close|resume")
+			ok = w.opReader(w.nextInID, 1<<3) && w.opCloser(0)
+			w.nextInID++
+			nclosers++
+			if ok && w.readerBusy != nil {
+				ok = w.resume(w.readerBusy, 0)
+			}
 		}
 		for i := 0; ok && i < steps && !w.infeasible; i++ {
 			var l string
